@@ -1001,7 +1001,7 @@ func runMc(r *verifx.Rng) {
 				if r.Chance(1, 25) {
 					k = ""
 				}
-				if len(pairs) > 0 && r.Chance(1, 12) {
+				if len(pairs) > 0 && r.Chance(1, 30) {
 					k = pairs[r.Intn(len(pairs))].Str // the same string twice in one call
 				}
 				pairs = append(pairs, pcache.MappingPair{Str: k, Value: pickValue(r)})
@@ -1014,6 +1014,12 @@ func runMc(r *verifx.Rng) {
 			h.Stat("mc.op.add", 1)
 		case 1:
 			k := keys[r.Intn(len(keys))]
+			if r.Chance(1, 2) {
+				if items, _, _, _, _ := x.c.VerifSnapshot(); len(items) > 0 {
+					sortItems(items)
+					k = items[r.Intn(len(items))].Str
+				}
+			}
 			if r.Chance(1, 20) {
 				k = string(r.Bytes(r.Range(0, 3)))
 			}
@@ -1188,15 +1194,15 @@ func runBigMc(r *verifx.Rng) {
 	h.Op("mc new %d %d %d", x.maxSize, 0, b2i(x.det))
 	_ = x.newCache(nil)
 	x.obs("new")
-	klen := r.Range(7000, 9000)
-	n := (data_model.ChunkSize/2)/(klen+12) + r.Range(2, 12)
-	for start := 0; start < n; start += 16 {
+	klen := r.Range(50000, 70000)
+	n := (data_model.ChunkSize/2)/(klen+12) + r.Range(2, 5)
+	for start := 0; start < n; start += 4 {
 		var pairs []pcache.MappingPair
-		for j := start; j < n && j < start+16; j++ {
-			k := append(bytes.Repeat([]byte{'k'}, klen-4), byte(j>>8), byte(j), byte(r.Intn(256)), 'z')
+		for j := start; j < n && j < start+4; j++ {
+			k := append(bytes.Repeat([]byte{'k'}, klen-4), byte(j>>8), byte(j), byte(j*7), 'z')
 			pairs = append(pairs, pcache.MappingPair{Str: string(k), Value: int32(j + 1)})
 		}
-		x.add(uint32(1000+start/16), pairs)
+		x.add(uint32(1000+start/4), pairs)
 	}
 	x.save()
 	x.reload("full", 0)
@@ -1205,7 +1211,7 @@ func runBigMc(r *verifx.Rng) {
 	x.probe("trunc", flen-1, nil)
 	x.probe("trunc", flen/2+100, nil)
 	x.probe("flip", r.Intn(flen*8), nil)
-	x.get(2000, string(append(bytes.Repeat([]byte{'k'}, klen-4), 0, 1, 0, 'z')))
+	x.get(2000, string(append(bytes.Repeat([]byte{'k'}, klen-4), 0, 1, 7, 'z')))
 }
 
 // ---------------------------------------------------------------- main
